@@ -130,6 +130,7 @@ def run(ctx, tier):
 
 
 def check_config(ctx, fx, cfg):
+    _FX[0] = fx
     ns = "ada::character_sets::"
     # ---- R1 ----------------------------------------------------------------
     n_tables = 0
@@ -445,6 +446,37 @@ def check_config(ctx, fx, cfg):
               "bit_at no longer reads bit (i&7) of a[i>>3] with a uint8_t index", where=f["loc"])
 
 
+_FX = [None]
+
+
+def _as_bit_at(cc):
+    """`must_be_encoded(*p)` with `const auto must_be_encoded = [set](char c) { return bit_at(set, c); };` is the test
+    bit_at(set, *p): the named predicate is read through"""
+    fx = _FX[0]
+    if fx is None or not (isinstance(cc, dict) and cc.get("k") == "call" and (cc.get("callee") or "").startswith("lambda@") and len(cc.get("args", [])) == 1):
+        return cc
+    g = fx.by_key.get(cc["callee"])
+    if g is None or not g.get("blocks") or len(g.get("params", [])) != 1:
+        return cc
+    rets = [st for b in g["blocks"] for st in b["stmts"] if st["k"] == "return" and st.get("e") is not None]
+    if len(rets) != 1:
+        return cc
+    r = X.strip(rets[0]["e"])
+    if isinstance(r, dict) and r.get("k") == "call" and r.get("qname") == "ada::character_sets::bit_at" and len(r.get("args", [])) == 2:
+        a1 = X.strip(r["args"][1])
+        while isinstance(a1, dict) and a1.get("k") in ("cast", "construct") and (a1.get("e") is not None or len(a1.get("args", [])) == 1):
+            a1 = X.strip(a1["e"] if a1.get("e") is not None else a1["args"][0])
+        if isinstance(a1, dict) and a1.get("k") == "ref" and a1.get("id") == g["params"][0]["id"]:
+            set0 = X.strip(r["args"][0])
+            # the captured set: a capture of the enclosing function's parameter shows as a reference to that parameter / member
+            if isinstance(set0, dict) and set0.get("k") in ("ref", "member"):
+                s2 = dict(set0)
+                if s2.get("k") == "member" or s2.get("kind") in ("capture", "local", "field"):
+                    s2 = {"k": "ref", "kind": "param", "name": set0.get("name") or set0.get("field"), "ty": set0.get("ty")}
+                return {"k": "call", "qname": "ada::character_sets::bit_at", "name": "bit_at", "args": [s2, cc["args"][0]]}
+    return cc
+
+
 def check_encoder_loop(ctx, f, count_only=False):
     """In each percent_encode body: a branch on bit_at(character_set, *p); true edge
     appends hex + uint8_t(*p)*4; false edge appends *p."""
@@ -456,6 +488,7 @@ def check_encoder_loop(ctx, f, count_only=False):
             cc = X.strip(c) if c is not None else None
             while isinstance(cc, dict) and cc.get("k") == "un" and cc.get("op") == "!":
                 cc = X.strip(cc["e"])
+            cc = _as_bit_at(cc)
             if isinstance(cc, dict) and cc.get("k") == "call" and cc.get("qname") == "ada::character_sets::bit_at" \
                     and b["term"].get("kind") == "IfStmt":
                 found += 1
@@ -469,6 +502,7 @@ def check_encoder_loop(ctx, f, count_only=False):
         while cc.get("k") == "un" and cc.get("op") == "!":
             neg = not neg
             cc = X.strip(cc["e"])
+        cc = _as_bit_at(cc)
         if not (cc.get("k") == "call" and cc.get("qname") == "ada::character_sets::bit_at"):
             continue
         if b["term"].get("kind") != "IfStmt":
